@@ -815,9 +815,14 @@ def run(run, tier, seed, replay=None):
     # ---------------------------------------------------------------- exhaustive-small
     for ctr, maxlen in (("module", 3 if quick else 4), ("bundle", 3 if quick else 5)):
         jobs, nops = exhaustive(ctr, ["a", "b"], maxlen)
+        nall = len(jobs)
+        if quick and ctr == "module":
+            # quick tier: every sequence of length <= 2 and every third sequence of length 3 (rotating with the seed); the
+            # thorough tier and the world-exhaustive boxes enumerate the full box
+            jobs = [j for k, j in enumerate(jobs) if len(j["ops"]) <= 2 or k % 3 == seed % 3]
         jj, oo, res, nf = evaluate("exh" + ctr[0], jobs, chunk=500)
         run.stream(f"exhaustive-small-{ctr}", len(jobs), len({json.dumps(j["ops"]) for j in jobs if nontrivial(j)}),
-                   exhaustive=True, ops_per_step=nops, max_length=maxlen, elaboration_failed=nf,
+                   exhaustive=(len(jobs) == nall), box_size=nall, ops_per_step=nops, max_length=maxlen, elaboration_failed=nf,
                    export_failed=sum(1 for o in oo if "err" in (o.get("export") or {})),
                    box=f"all sequences of length <= {maxlen} over names a,b x every storable kind x {{setattr, add}}",
                    rule="non-trivial = some name is bound at least twice")
